@@ -5,7 +5,7 @@
 From Coq Require Import List Ascii String NArith ZArith Bool Lia.
 Import ListNotations.
 Require Import Dec Header.
-Require Import Bytes MsgType MsgTypeFwd TablesLift KV Trim Parser ParseLine HeaderIdx HeaderIdxProofs ToMap TrimPad.
+Require Import Bytes MsgType MsgTypeFwd TablesLift KV Trim Parser ParseLine HeaderIdx HeaderIdxProofs ToMap TrimPad TrimPadRunes.
 Open Scope N_scope.
 
 (* every seconds value in [0,2^34), milliseconds 000-999, sequence in uint32, ANY text
@@ -62,6 +62,16 @@ Proof.
   rewrite (trim_space_fixed ("a"%char :: tl)); [reflexivity|split; [reflexivity|exact He]|discriminate].
 Qed.
 
+(* the same for any run of Unicode white-space runes (all 25 of unicode.IsSpace, in UTF-8) on either side *)
+Theorem C04_rune_padding_ignored : forall t rs1 tl rs2,
+  Forall (fun p => In p space_runes) rs1 -> Forall (fun p => In p space_runes) rs2 -> drop_space_rune_rev (rev ("a"%char :: tl)) = None ->
+  parse t (List.concat rs1 ++ ("a"%char :: tl) ++ List.concat rs2)%list = parse t ("a"%char :: tl).
+Proof.
+  intros t rs1 tl rs2 H1 H2 He. unfold parse.
+  rewrite (trim_space_rune_padded rs1 ("a"%char :: tl) rs2 H1 H2); [|split; [reflexivity|exact He]|discriminate|reflexivity].
+  rewrite (trim_space_fixed ("a"%char :: tl)); [reflexivity|split; [reflexivity|exact He]|discriminate].
+Qed.
+
 (* ToMapStr: the four header keys carry the header's values whatever the body held - fields named record_type, @timestamp,
    sequence or raw_msg included - and every other field is reported as Data() gave it *)
 Theorem C04_to_map_str_header_keys : forall rt ts sq raw data,
@@ -74,6 +84,7 @@ Theorem C04_to_map_str_keeps_data : forall rt ts sq raw data k v,
   mget k (to_map_str rt ts sq raw data) = Some v.
 Proof. exact to_map_str_keeps_data. Qed.
 
+Print Assumptions C04_rune_padding_ignored.
 Print Assumptions C04_padding_ignored.
 Print Assumptions C04_header_accepted_only_if_wellformed.
 Print Assumptions C04_to_map_str_header_keys.
